@@ -205,7 +205,6 @@ static const LDef LINES[] = {
   {"genA+1e-9deg", 20, -30, 35 + 1e-9, 0, 0},
   {"meridian10@-25", -25, 10, 0, 2, +1},
   {"genA-rev", 20, -30, -145, 3, -1},
-  // thorough tier only
   {"nearEquator", 0, 20, 89.9, 0, 0},          // crosses the equator at 0.1 deg
   {"nearPole", 60, -120, 1e-5, 0, 0},          // passes a few metres from the pole
   {"genE", 75, 33, -70, 0, 0},
@@ -290,12 +289,21 @@ struct Judge {
 };
 
 bool Judge::on_line(const CoLine& L, double x, double y) const { return L.on(x, y, 1e-3 * sc + 4 * restol(x, y)); }
+// construct the object under test; a constructor exception inside the validated range is a violation of every unit that needs it
+static Intersect* make_intersect(Ctx& ctx, const Ell& E, const Geodesic& g, const std::string& unitdesc) {
+  try { return new Intersect(g); }
+  catch (const std::exception& e) {
+    Ctx::Case cs(ctx);
+    ctx.fail("ctor " + unitdesc, std::string("Intersect constructor threw inside the validated range: ") + e.what(), {{"kind", "ctor-threw"}, {"ellipsoid", E.name}});
+    return nullptr;
+  }
+}
 int Judge::expect_c(const CoLine& L, double x, double y) const { return L.on(x, y, 1e-3 * sc + 4 * restol(x, y)) ? L.c : 0; }
 
 int main(int argc, char** argv) {
   Ctx ctx(argc, argv);
   const bool T = ctx.thorough();
-  NL = T ? NLALL : 12; NE = T ? NEALL : 10;
+  NL = NLALL; NE = T ? NEALL : 10;
   const double aW = Constants::WGS84_a(), fW = Constants::WGS84_f();
   std::vector<Ell> ells = {{"sphere", aW, 0, false, 15e-9}, {"WGS84", aW, fW, false, 15e-9}};
   if (T) {
@@ -352,7 +360,8 @@ int main(int argc, char** argv) {
       for (int i = 0; i < NL; ++i) for (int j = 0; j < NL; ++j) {
         if (!ctx.take()) continue;
         if (!g) {
-          g = new Geodesic(E.a, E.f, E.exact); in = new Intersect(*g);
+          g = new Geodesic(E.a, E.f, E.exact); in = make_intersect(ctx, E, *g, std::string(E.name) + " pair " + fmti(i) + "," + fmti(j));
+          if (!in) { delete g; g = nullptr; continue; }
           cache.resize(NL); lines.resize(NL);
           for (int k = 0; k < NL; ++k) { lines[k] = g->Line(LINES[k].lat, LINES[k].lon, LINES[k].azi); if (E.f != 0 || true) cache[k].build(E, lines[k], hline, Kline); }
         }
@@ -518,7 +527,10 @@ int main(int argc, char** argv) {
     for (const Ell& E : ells) for (const PDef& s0 : starts) {
       if (!ctx.take()) continue;
       const double sc = E.a / aW;
-      Geodesic g(E.a, E.f, E.exact); Intersect in(g);
+      Geodesic g(E.a, E.f, E.exact);
+      Intersect* inp = make_intersect(ctx, E, g, std::string(E.name) + " start " + s0.name);
+      if (!inp) continue;
+      Intersect& in = *inp;
       Judge J{ctx, E, g, sc, 20e-9 * sc * (E.gdoc / 15e-9)};
       std::vector<LineCache> cache(azis.size());
       const double h = 2.5e5 * sc; const int K = 200;
@@ -570,6 +582,7 @@ int main(int argc, char** argv) {
         }
         if (ctx.want_sample()) ctx.sample(J.where + " -> (" + fmt(p.first) + "," + fmt(p.second) + ") c=" + fmti(c1));
       }
+      delete inp;
     }
     ctx.count("calls", calls);
     ctx.count("ix.scan.cells", st.cells); ctx.count("ix.scan.candidate_cells", st.candidates); ctx.count("ix.scan.roots", st.roots);
@@ -596,7 +609,8 @@ int main(int argc, char** argv) {
       for (size_t i = 0; i < segs.size(); ++i) {
         if (!ctx.take()) continue;
         if (!g) {
-          g = new Geodesic(E.a, E.f, E.exact); in = new Intersect(*g);
+          g = new Geodesic(E.a, E.f, E.exact); in = make_intersect(ctx, E, *g, std::string(E.name) + " segment " + fmti((long long)i));
+          if (!in) { delete g; g = nullptr; continue; }
           sl.resize(segs.size()); il.resize(segs.size()); cache.resize(segs.size()); sph.resize(segs.size()); slen.resize(segs.size());
           for (size_t k = 0; k < segs.size(); ++k) {
             const PDef &a = ENDS[segs[k].p], &b = ENDS[segs[k].q];
